@@ -12,6 +12,16 @@ thread_local! {
     static SEEN: RefCell<std::collections::HashMap<Vec<u8>, (Vec<u8>, Vec<u8>, Vec<u8>)>> = RefCell::new(Default::default());
     /// pairs of distinct keys whose streams begin with the same 16 bytes
     static COLLISIONS: RefCell<Vec<String>> = const { RefCell::new(Vec::new()) };
+    /// planted rejections: (every, size) = every `every`-th block of `size` bytes of EVERY stream (from byte 16 on)
+    /// is replaced by 0xff bytes, i.e. by a value the rejection sampler refuses
+    static PLANT: std::cell::Cell<Option<(usize, usize)>> = const { std::cell::Cell::new(None) };
+}
+
+/// Turn the planted rejections on or off.  The rule is a function of the stream position only, so client and
+/// aggregators — which run the same XOF type — stay consistent, and the recorded table shows the planted bytes to
+/// the model.
+pub fn plant(rule: Option<(usize, usize)>) {
+    PLANT.with(|p| p.set(rule));
 }
 
 #[derive(Clone, Debug)]
@@ -45,6 +55,15 @@ impl TryRng for RecStream {
     type Error = Infallible;
     fn try_fill_bytes(&mut self, dest: &mut [u8]) -> Result<(), Infallible> {
         self.inner.fill_bytes(dest);
+        if let Some((every, size)) = PLANT.with(|p| p.get()) {
+            let pos = self.read.len();
+            for (i, b) in dest.iter_mut().enumerate() {
+                let at = pos + i;
+                if at >= 16 && (at / size) % every == every - 1 {
+                    *b = 0xff;
+                }
+            }
+        }
         self.read.extend_from_slice(dest);
         Ok(())
     }
